@@ -618,10 +618,14 @@ structure Api where
   schema : List Name
   /-- keys of `api.route_schema._fields_by_name` -/
   schemaByName : List Name
-  /-- names of the fields `stone_cfg.Route` inherits (`all_fields` minus `fields`); `cli.main` never
-  looks at them, routes carry values for them -/
+  /-- names of the fields `stone_cfg.Route` inherits (`all_fields` minus `fields`); routes carry values
+  for them, `cli.main` accepts them with `-a` but cannot take them out of the schema -/
   schemaInherited : List Name := []
   deriving DecidableEq, Repr
+
+/-- every attribute a route can carry: the fields of `stone_cfg.Route`, inherited ones included
+(`route_schema.all_fields`) -/
+def Api.allFields (api : Api) : List Name := api.schemaInherited ++ api.schema
 
 structure Opts where
   /-- `-f`; `none` when the option is absent -/
@@ -695,9 +699,10 @@ def stageFilter (f : Option Expr) (api : Api) : Api :=
   | none => api
   | some e => { api with namespaces := api.namespaces.map (Namespace.filterRoutes e) }
 
-/-- the set `attrs` of `main` before the schema loop (as a list; order is immaterial) -/
-def wantedAttrs (a : List Name) (schema : List Name) : List Name :=
-  if a = [] then [] else if allAttributes ∈ a then schema else a
+/-- the set `attrs` of `main` before the schema loop (as a list; order is immaterial):
+`attrs.remove(':all'); attrs.update(names of route_schema.all_fields)` -/
+def wantedAttrs (a : List Name) (all : List Name) : List Name :=
+  if a = [] then [] else if allAttributes ∈ a then a.filter (fun n => n ≠ allAttributes) ++ all else a
 
 def Route.restrict (keep : List Name) (r : Route) : Route :=
   { r with attrs := r.attrs.filter (fun kv => kv.1 ∈ keep) }
@@ -712,8 +717,9 @@ def Namespace.restrict (keep : List Name) (ns : Namespace) : Namespace :=
 
 /-- `if args.attribute:` … the three loops … "Attribute not defined in stone_cfg.Route" -/
 def stageAttrs (a : List Name) (api : Api) : Except CliError Api :=
-  let attrs := wantedAttrs a api.schema
-  let left := (attrs.filter (fun n => n ∉ api.schema)).eraseDups
+  let attrs := wantedAttrs a api.allFields
+  -- the schema loop takes the selected own fields out of `attrs`, `difference_update` the inherited ones
+  let left := (attrs.filter (fun n => n ∉ api.allFields)).eraseDups
   if left ≠ [] then .error (.attributeUndefined left) else
   .ok { namespaces := api.namespaces.map (Namespace.restrict attrs)
         schema := api.schema.filter (fun n => n ∈ attrs)
@@ -766,15 +772,11 @@ def Namespace.pruned (o : Opts) (f : Option Expr) (keep : List Name) (ns : Names
     dataTypes := ns.dataTypes }
 
 def pruneSpec (o : Opts) (f : Option Expr) (api : Api) : Api :=
-  let keep := wantedAttrs o.attributes api.schema
+  let keep := wantedAttrs o.attributes api.allFields
   { namespaces := api.namespaces.map (Namespace.pruned o f keep)
     schema := api.schema.filter (fun n => n ∈ keep)
     schemaByName := api.schemaByName.filter (fun n => n ∈ keep)
     schemaInherited := api.schemaInherited }
-
-/-- every attribute a route can carry: the fields of `stone_cfg.Route`, inherited ones included
-(`route_schema.all_fields`) -/
-def Api.allFields (api : Api) : List Name := api.schemaInherited ++ api.schema
 
 /-- the selection the property speaks of: the names given with `-a`, all attributes with `:all` -/
 def wantedAll (a : List Name) (api : Api) : List Name :=
